@@ -27,7 +27,9 @@ type VarDef struct {
 // VarsCase is a C13 case.
 type VarsCase struct {
 	// ProjDir names the directory holding the spokfile ("" = proj)
-	ProjDir string            `json:"proj_dir,omitempty"`
+	ProjDir string `json:"proj_dir,omitempty"`
+	// Invoke: how spok is pointed at the project (sandbox.Box.Invoke)
+	Invoke  string            `json:"invoke,omitempty"`
 	Vars    []VarDef          `json:"vars"`
 	Ambient map[string]string `json:"ambient"`
 	DotEnv  map[string]string `json:"dotenv"`
@@ -60,6 +62,7 @@ var joinSegs = []string{".", "..", "", "a/b/", "dist", "/abs/root", "x", "./y//z
 func genVars(t *rapid.T) VarsCase {
 	c := genVarsBody(t)
 	c.ProjDir = genProjDir(t)
+	c.Invoke = genInvoke(t)
 	return c
 }
 
@@ -168,7 +171,7 @@ func (c VarsCase) source() (src string, cmds map[string][2]string) {
 }
 
 func execVars(s *ev.Shard, b *sandbox.Box, c VarsCase) *rp.Fail {
-	if err := b.ResetAs(c.ProjDir); err != nil {
+	if err := b.ResetFor(c.ProjDir, c.Invoke); err != nil {
 		return &rp.Fail{Sig: "harness", Msg: err.Error()}
 	}
 	src, _ := c.source()
@@ -210,7 +213,7 @@ func execVars(s *ev.Shard, b *sandbox.Box, c VarsCase) *rp.Fail {
 		case v.Fail:
 			anyFail = true
 		case v.Kind == "join":
-			want[v.Name] = cleanPath(cwd, v.Args)
+			want[v.Name] = cleanPath(b.EffectiveCwd(cwd), v.Args)
 		default:
 			want[v.Name] = v.Want
 		}
